@@ -14,4 +14,4 @@ Extraction "model.ml"
   Kernels_gen.SplitStrategyByAngle_newBlock Kernels_gen.SplitStrategyByNum_newBlock Kernels_gen.SplitStrategyBySeq_newPacket
   Kernels_gen.SplitStrategyBySeq_maxSeq Kernels_gen.AzimuthSection_ctor Kernels_gen.AzimuthSection_in_ Kernels_gen.fn_parseTempInLe Kernels_gen.fn_parseTempInBe
   Dyadic.dy_mul_r Dyadic.dy_of_Z Dyadic.dy_trunc Decoder.parse_ymd Decoder.create_ymd Decoder.parse_utc Decoder.create_utc
-  Driver.crc_calc Driver.crc_ok.
+  Driver.crc_calc Driver.crc_ok Driver.overflow_guard.
